@@ -43,6 +43,8 @@ def run(ctx):
     ctx.rule("S12", "Gearbox thresholds cannot block both sides: sink.ready = level < Tr, source.valid = level >= Tv with "
                     "Tr >= Tv, from io_lcm >= 2*i_dw and io_lcm >= 2*o_dw (the two doubling statements); the level only "
                     "decreases on a source handshake (valid is not withdrawn)", min_sites=7)
+    ctx.rule("S13", "FIFO wrapper: every source field (valid, payload, param, first, last) is a function of the FIFO output side only "
+                    "-- no combinational path from the sink's lines (a stored token must not change while it waits)", min_sites=5)
     ctx.rule("PRIO", "no assignment is made dead by a later unconditional assignment to the same target in the same "
                      "scope", min_sites=5)
 
@@ -75,6 +77,20 @@ def run(ctx):
 
     # ---- Gearbox thresholds
     _gearbox(ctx)
+
+    # ---- S13 stored tokens are presented from the store
+    fx = fx_of(ctx, STREAM, "_FIFOWrapper")
+    fail_closed(ctx, fx, "_FIFOWrapper")
+    for fld in ("payload", "param", "first", "last", "valid"):
+        drv = fx.find(domain="comb", target=f"self.source.{fld}")
+        clos = set()
+        for a in drv:
+            clos |= q.comb_closure(fx, a.value, context=a)
+        leak = sorted(p for p in clos if p == "self.sink" or p.startswith("self.sink."))
+        ok = bool(drv) and not leak
+        ctx.ob("S13", STREAM, "_FIFOWrapper", f"source.{fld} comes from the FIFO output only", ok,
+               "" if ok else (f"source.{fld} depends combinationally on {leak}: while the consumer stalls the presented {fld} follows the "
+                              f"producer's lines instead of the stored token" if drv else f"source.{fld} is not driven"), drv[0].line if drv else 0)
 
     # ---- S1' PipeReady
     fx = fx_of(ctx, STREAM, "PipeReady")
